@@ -87,3 +87,14 @@ Theorem C01_max_greatest_binary64 : forall (p mi ci : N) (xs : list PrimFloat.fl
   length outs = length xs /\
   forall k, (k < length xs)%nat -> greatest_in FOps (lastn (N.to_nat p) (firstn (S k) xs)) (nth k outs (ninf FOps)).
 Proof. intros p mi ci xs. exact (max_greatest FOps okF p mi ci xs float_order_max). Qed.
+
+From Coq Require Import List Floats.
+From TA Require Import Generic FloatInst XQ Run2 Par.Hom Par.Var Par.Oracle.
+(* the T2 oracle (exact rational run, evaluated by the checks) is the image of the exact real run these
+   theorems are about; SD/BB through the variance model (sqrt := identity, Par/Var.v) *)
+Theorem C01_t2_oracle_variance : forall fops : list (@op float),
+  snd (run XRvOps [] (map (map_op f2xr) fops)) = map (map_obs q2x) (snd (run XQOps [] (map qop fops))).
+Proof. exact t2_oracle_variance. Qed.
+Theorem C01_t2_oracle : forall fops : list (@op float), forallb no_sqrt_kind fops = true ->
+  snd (run XROps [] (map (map_op f2xr) fops)) = map (map_obs q2x) (snd (run XQOps [] (map qop fops))).
+Proof. exact t2_oracle. Qed.
